@@ -93,7 +93,31 @@ def main(tier, seed):
     for i in range(n):
         progs.append(("gen/%d/%d" % (seed, i), gen.generate(seed, 9000 + i, max_choices=7,
                                                               evidence=True)))
+    # helper predicates shared between the definition of an evidence atom and a query, with a literal of another
+    # evidence atom inside (grounded in the evidence phase, read back through the cache by the query)
+    from vlib.gen import A
+    for i in range(n // 2):
+        r = random.Random("c06h/%s/%s" % (seed, i))
+        prog = [("ad", [("p%d" % (k + 1), A(x))], []) for k, x in enumerate(["a", "b", "c", "d"])]
+        sa = r.random() < 0.7
+        hbody = [(A("a"), sa), (A("b"), r.random() < 0.2)]
+        hbody.sort(key=lambda l: l[1])
+        prog.append(("rule", A("h"), hbody))
+        prog.append(("rule", A("e"), [(A("h"), False), (A("c"), False)]))
+        if r.random() < 0.4:
+            prog.append(("rule", A("e"), [(A("d"), False), (A("c"), False)]))
+        prog.append(("rule", A("q"), [(A("h"), r.random() < 0.2), (A("d"), False)]))
+        prog.append(("evidence", A("a"), (not sa) if r.random() < 0.8 else sa))
+        prog.append(("evidence", A("e"), r.random() < 0.3))
+        prog.append(("query", A("q")))
+        if r.random() < 0.5:
+            prog.append(("query", A("h")))
+        progs.append(("helper/%d/%d" % (seed, i), prog))
     for j, (name, prog) in enumerate(progs):
+        if name.startswith("helper/"):
+            items.append((name, prog, [{"propagate_evidence": True}, {"propagate_evidence": True, "spelling": True},
+                                       {"propagate_evidence": True, "propagate_weights": True}]))
+            continue
         if tier == "quick":
             sel = [vs[(j * 5 + k) % len(vs)] for k in range(5)] + [{t: True} for t in TOGGLES[:2]]
         else:
